@@ -409,6 +409,19 @@ def run(ctx):
             stt = st_['state']
             hist['merged'] = hist.get('merged', 0) + 1
             ctx.count(('merged', _json.dumps(job_['init'], sort_keys=True), k_))
+            # ... and at every probed temperature like a correlation constructed afresh from the merged state
+            bad_ = None
+            for pn in ('h', 's', 'cp'):
+                for T_, a_, b_ in zip(sv['T'], sv['cur'][pn], sv.get('fresh', {}).get(pn, [])):
+                    if ('exc' in a_) != ('exc' in b_) or ('exc' not in a_ and a_.get('v') is not None and b_.get('v') is not None
+                                                           and abs(a_['v'] - b_['v']) > 1e-9 * (1 + abs(b_['v']))):
+                        bad_ = (pn, T_, a_, b_)
+                        break
+                if bad_:
+                    break
+            if bad_:
+                ctx.violate('merged-fresh:%s' % bad_[0], 'after a merge %s at a temperature asked before the merge is not what a correlation constructed from the merged data gives' % bad_[0],
+                            dict(job_, step=k_, T=bad_[1]), bad_[3], bad_[2])
             if stt['T_ref'] in sv['T'] and stt['tab']:
                 i_ = sv['T'].index(stt['T_ref'])
                 for pn, fld in (('h', 'H'), ('s', 'S')):
